@@ -11,11 +11,13 @@ import (
 	"encoding/json"
 	"flag"
 	"fmt"
+	"math/big"
 	"math/rand"
 	"sort"
 	"strconv"
 	"strings"
 	"sync"
+	"unicode/utf8"
 
 	"rare/pkg/expressions"
 	"rare/pkg/expressions/funclib"
@@ -243,7 +245,69 @@ func truthClass(s string) string {
 	if printable {
 		return "true"
 	}
+	// ExprScalarText.tla: UTF-8 text, White_Space code points, certainly visible characters
+	allWS, wellFormed, visible := true, true, false
+	for i := 0; i < len(s); {
+		r, n := utf8.DecodeRuneInString(s[i:])
+		if r == utf8.RuneError && n <= 1 {
+			wellFormed, allWS = false, false
+		} else {
+			if !whiteSpace(r) {
+				allWS = false
+			}
+			if visibleRune(r) {
+				visible = true
+			}
+		}
+		i += n
+	}
+	if allWS {
+		return "blank"
+	}
+	if wellFormed && visible {
+		return "true"
+	}
 	return "unknown"
+}
+
+// the Unicode property White_Space (U8WS of ExprScalarText.tla)
+func whiteSpace(r rune) bool {
+	switch {
+	case r >= 9 && r <= 13, r == 32, r == 0x85, r == 0xA0, r == 0x1680, r >= 0x2000 && r <= 0x200A,
+		r == 0x2028, r == 0x2029, r == 0x202F, r == 0x205F, r == 0x3000:
+		return true
+	}
+	return false
+}
+
+// U8Visible of ExprScalarText.tla
+func visibleRune(r rune) bool {
+	for _, iv := range [][2]rune{{33, 126}, {161, 172}, {174, 591}, {913, 929}, {945, 969}, {1040, 1103}, {1488, 1514}, {1632, 1641},
+		{8364, 8364}, {8592, 8703}, {12353, 12438}, {19968, 40959}, {44032, 55203}, {128512, 128591}} {
+		if r >= iv[0] && r <= iv[1] {
+			return true
+		}
+	}
+	return false
+}
+
+// DecOK of ExprScalar.tla: [sign] digits [. digits] with at least one digit
+func decOK(s string) bool {
+	if s != "" && (s[0] == '+' || s[0] == '-') {
+		s = s[1:]
+	}
+	dots, digits := 0, 0
+	for i := 0; i < len(s); i++ {
+		switch {
+		case s[i] == '.':
+			dots++
+		case s[i] >= '0' && s[i] <= '9':
+			digits++
+		default:
+			return false
+		}
+	}
+	return dots <= 1 && digits >= 1
 }
 
 func lowerASCII(s string) string {
@@ -286,6 +350,8 @@ func decide(e expect, o outcome) (ok bool, decided bool) {
 		return c == "empty" || c == "blank", true
 	case "marker":
 		return markers[o.Got], true
+	case "notnum":
+		return !decOK(o.Got), true
 	}
 	return true, false
 }
@@ -768,7 +834,100 @@ func (r rnd) text(maxLen int) string {
 }
 
 func (r rnd) truthish() string {
+	if r.Intn(3) == 0 {
+		return r.blankish()
+	}
 	return r.pick("", "", "a", "0", "1", " ", "\t", "x y", " z", "false", "\xa0", "<BAD-TYPE>")
+}
+
+// every White_Space code point, then code points next to them and other invisible ones, then visible ones
+var wsRunes = []rune{9, 10, 11, 12, 13, 32, 0x85, 0xA0, 0x1680, 0x2000, 0x2001, 0x2002, 0x2003, 0x2004, 0x2005, 0x2006, 0x2007,
+	0x2008, 0x2009, 0x200A, 0x2028, 0x2029, 0x202F, 0x205F, 0x3000}
+var nearRunes = []rune{0x84, 0x86, 0xAD, 0x180E, 0x1FFF, 0x200B, 0x200C, 0x200E, 0x2027, 0x202A, 0x2030, 0x205E, 0x2060, 0x2FFF, 0x3001, 0xFEFF, 0}
+var visRunes = []rune{'a', '0', '-', 0xA1, 0xE9, 0x416, 0x4E16, 0x1F600}
+
+// blankish: a value of 1-4 code points, mostly white space of every kind (alone, mixed with the ASCII blanks), sometimes
+// with a near miss, a visible character or an ill-formed byte in it
+func (r rnd) blankish() string {
+	n := 1 + r.Intn(4)
+	var sb strings.Builder
+	for i := 0; i < n; i++ {
+		sb.WriteRune(wsRunes[r.Intn(len(wsRunes))])
+	}
+	s := sb.String()
+	at := r.Intn(len(s) + 1)
+	for at < len(s) && !utf8.RuneStart(s[at]) {
+		at++
+	}
+	switch r.Intn(8) {
+	case 0:
+		return s[:at] + string(nearRunes[r.Intn(len(nearRunes))]) + s[at:]
+	case 1:
+		return s[:at] + string(visRunes[r.Intn(len(visRunes))]) + s[at:]
+	case 2:
+		return s[:at] + r.pick("\xa0", "\x85", "\xc2", "\xe2\x80", "\xc0\xa0", "\xed\xa0\x80", "\xff") + s[at:]
+	}
+	return s
+}
+
+// bigDec: a decimal beyond the 9-digit model that binary64 often holds exactly: m * 2^k (m < 2^53), optionally with a dyadic
+// fraction, powers of ten, values next to 2^53 / 2^63 / 2^64, either sign
+func (r rnd) bigDec() string {
+	var t string
+	switch r.Intn(6) {
+	case 0, 1:
+		m := new(big.Int).SetInt64(1 + r.Int63n(1<<uint(1+r.Intn(53))))
+		t = m.Lsh(m, uint(r.Intn(80))).String()
+	case 2:
+		k := 31 + r.Intn(22) // integer part below 2^53, fraction of 1..(53-k) binary places (at most 6)
+		m := new(big.Int).SetInt64(1<<uint(k-1) + r.Int63n(1<<uint(k-1)))
+		places := 1 + r.Intn(min(6, 53-k))
+		num := 1 + 2*r.Int63n(1<<uint(places-1)) // odd numerator over 2^places
+		fr := new(big.Int).Mul(big.NewInt(num), new(big.Int).Exp(big.NewInt(5), big.NewInt(int64(places)), nil))
+		t = m.String() + "." + fmt.Sprintf("%0*s", places, fr.String())
+	case 3:
+		t = strconv.Itoa(1+r.Intn(999)) + strings.Repeat("0", 9+r.Intn(16))
+	case 4:
+		base := new(big.Int).Lsh(big.NewInt(1), uint([]int{53, 63, 64}[r.Intn(3)]))
+		t = base.Add(base, big.NewInt(int64(r.Intn(5)-2)*int64([]int{1, 1024, 2048}[r.Intn(3)]))).String()
+	default:
+		t = r.nat(9) + r.nat(9) + r.pick("", "", ".5", ".25", "."+r.nat(3))
+	}
+	if r.Intn(3) == 0 {
+		t = "-" + t
+	}
+	return t
+}
+
+func (r rnd) nonFinite() string {
+	return r.pick("inf", "+Inf", "-inf", "-Inf", "Infinity", "-infinity", "NaN", "nan", "INF")
+}
+
+// bigOrDec: the argument of floor / ceil / round
+func (r rnd) bigOrDec(sig, frac int) string {
+	switch r.Intn(12) {
+	case 0, 1, 2:
+		return r.bigDec()
+	case 3:
+		return r.nonFinite()
+	case 4:
+		return r.expForm()
+	}
+	return r.decn(sig, frac)
+}
+
+// expForm: scientific notation, mantissas and exponents that often give a value binary64 holds exactly
+func (r rnd) expForm() string {
+	m := r.pick("1", "5", "25", "125", "1.5", "2.5", "9.223372036854775808", "1024", r.nat(3), r.dec(4, 3))
+	if r.Intn(4) == 0 {
+		m = "-" + m
+	}
+	e := r.Intn(26) - 3
+	sep := r.pick("e", "e", "E")
+	if e >= 0 && r.Intn(3) == 0 {
+		sep += "+"
+	}
+	return m + sep + strconv.Itoa(e)
 }
 
 type generator func(r rnd) []string
@@ -825,12 +984,12 @@ func init() {
 		return []string{r.decn(6, 2)}
 	}, "sqrt")
 	reg(func(r rnd) []string { return []string{r.decn(6, 2)} }, "log10", "log2", "ln")
-	reg(func(r rnd) []string { return []string{r.decn(9, 5)} }, "floor", "ceil")
+	reg(func(r rnd) []string { return []string{r.bigOrDec(9, 5)} }, "floor", "ceil")
 	reg(func(r rnd) []string {
 		if r.Intn(3) == 0 {
-			return []string{r.decn(9, 5)}
+			return []string{r.bigOrDec(9, 5)}
 		}
-		return []string{r.decn(9, 6), r.pick(strconv.Itoa(r.Intn(7)), strconv.Itoa(r.Intn(7)), strconv.Itoa(r.Intn(7)), r.precNoise())}
+		return []string{r.bigOrDec(9, 6), r.pick(strconv.Itoa(r.Intn(7)), strconv.Itoa(r.Intn(7)), strconv.Itoa(r.Intn(7)), r.precNoise())}
 	}, "round")
 	reg(func(r rnd) []string { return rep(2, func() string { return r.str("ab1 ", 2) }) }, "eq", "neq")
 	reg(func(r rnd) []string { return []string{r.truthish()} }, "not")
